@@ -53,7 +53,12 @@ CLAIMED["C11"] = dict(
    ref="DESIGN.md §6 C11",
    note="Trusts: the step generator producing well-typed programs (a generated prefix the front end rejects is a harness error), the harness re-implementation of the CLI's REPL loop (request_process_types -> Repl::evaluate -> poll). Type aliases are hoisted to the front of the one-program form because the parser accepts alias declarations only before the first step.",
    technique="deterministic simulation: history (line partition + rejected lines) and schedule search against one-shot reference executions, with per-turn heap invariants")
-PENDING = {k: 'claimed in DESIGN.md; check under construction in this revision (not yet registered)' for k in ['C10','C13']}
+CLAIMED["C13"] = dict(
+   text="Scoped to what a simulator can vary: placement of minting processes on 1-6 workers, values crossing process and worker boundaries, and program updates between construction and comparison. Pairs from a small value universe (small/big ints, constant vs heap-rope vs sliced binaries, named/unnamed/labelled/nested tuples, Ok) are built locally on one side and, on the other, arrive as a process result, in a message to a comparer that captured the first value, as a spawn capture, from an in-memory module, or are built on a later REPL line after a same-shape tuple with different field types was merged (canonical-shape table recomputed). Both orders and the reflexive comparison are evaluated; refs minted by several processes and by the REPL process across lines are compared pairwise and returned. The verdict vector must equal the model's structural equality under every sampled placement and schedule, and all refs must be pairwise distinct. Sampling; no claim to cover the space of syntactic construction paths (that part is a pure function).",
+   ref="DESIGN.md §6 C13",
+   note="Trusts: the value universe's host-side equality keys. Verdicts are captured as `[v] = [a =&b]`; a plain `v = a =&b` binding followed by further steps is avoided because the compiler narrows `a` after a failing pinned match and drops later steps (sequential-core behaviour, outside this property's simulated scope; noted in DESIGN.md).",
+   technique="deterministic simulation: placement/schedule search with a structural-equality model over values transported across process, worker and program-update boundaries")
+PENDING = {k: 'claimed in DESIGN.md; check under construction in this revision (not yet registered)' for k in ['C10']}
 
 def main():
     checks = []
